@@ -22,7 +22,11 @@ def value(obj, *args, **kwargs):
         if any(p.kind == p.VAR_POSITIONAL for p in parameters.values()):
             return obj(*args, **kwargs)
         else:
-            nargs = len(parameters)
+            # Only these take positional arguments (keyword only and
+            # **kwargs parameters don't).
+            nargs = sum(
+                p.kind in (p.POSITIONAL_ONLY, p.POSITIONAL_OR_KEYWORD)
+                for p in parameters.values())
             return obj(*args[:nargs], **kwargs)
     else:
         return obj
